@@ -347,6 +347,17 @@ pub fn codemap_str(cm: &json_syntax::CodeMap) -> String {
     if s.is_empty() {
         s.push('-');
     }
+    // the other views of a code map (slice, deref, get, both IntoIterator impls, clone) agree
+    let sl = cm.as_slice();
+    let views_ok = sl.len() == cm.len()
+        && cm.iter().all(|(i, e)| sl.get(i) == Some(e) && cm.get(i) == Some(e))
+        && cm.iter().count() == sl.len()
+        && cm.get(sl.len()).is_none()
+        && (&*cm).into_iter().map(|(i, e)| (i, *e)).eq(cm.clone().into_iter())
+        && cm.iter().map(|(i, _)| i).eq(0..sl.len());
+    if !views_ok {
+        s.push_str(" CODEMAP-VIEWS-DISAGREE");
+    }
     s
 }
 
